@@ -2,6 +2,7 @@
   MpModel/DrvIntFun.lean — driver ops for MpModel/IntFun.lean (same token conventions as Driver.lean).
 
   Stateless ops:
+    w_binomial n k p r | w_rf x n p r | w_ff x n p r | w_bell n p r | bernfrac n (n ≤ 150)   (exact REFERENCE values, not models)
     isqrt_small x r0 | sqrtrem_large x y0   (integer loops with the float estimate as parameter)
     stirling1 n k | moebius n | list_primes n | primepi n | isprime n | gcd a b c … | powmod a d n
   History ops (fresh module state, then the whole call history; the answer lists every result, then
@@ -130,6 +131,19 @@ def answer (toks : List String) : Option String :=
   | ["sqrtrem_large", x, y0] => do
     let r := sqrtremLarge (← x.toNat?) (← parseInt y0)
     pure s!"P:{showI r.1},{showI r.2}"
+  | ["w_binomial", n, k, p, r] => do
+    pure (roundE (.ok (binomialRef (← parseInt n) (← parseInt k))) (← parseInt p) (← parseRnd r))
+  | ["w_rf", x, n, p, r] => do
+    pure (roundE (.ok (rfRef (← parseInt x) (← n.toNat?))) (← parseInt p) (← parseRnd r))
+  | ["w_ff", x, n, p, r] => do
+    pure (roundE (.ok (ffRef (← parseInt x) (← n.toNat?))) (← parseInt p) (← parseRnd r))
+  | ["w_bell", n, p, r] => do
+    pure (roundE (.ok (bellRef (← n.toNat?))) (← parseInt p) (← parseRnd r))
+  | ["bernfrac", n] => do
+    let k ← n.toNat?
+    if k > 150 then none else
+    let b := bernfracRef k
+    pure s!"P:{showI b.1},{showI (b.2 : Int)}"
   | ["w_fac", n, p, r] => do
     pure (roundE ((ifac (← parseInt n) ifacMemo0).map (·.1)) (← parseInt p) (← parseRnd r))
   | ["w_fac2", n, p, r] => do
